@@ -310,6 +310,46 @@ func init() {
 		"IteU8":  iteIntrinsic,
 		"IteU32": iteIntrinsic,
 		"IteInt": iteIntrinsic,
+		"TempDir": func(ex *Exec, fn *ssa.Function, args []Value, caller *Frame) Value {
+			fs := ex.fs()
+			fs.tmpN++
+			d := ex.strLit(fmt.Sprintf("/data%d", fs.tmpN))
+			fs.dirs = append(fs.dirs, d)
+			return d
+		},
+		"CrashWindow": func(ex *Exec, fn *ssa.Function, args []Value, caller *Frame) Value {
+			// the process may die before any file-system step inside f, or
+			// inside a write; which step is a solver variable
+			fs := ex.fs()
+			maxSteps := ex.concreteInt(args[1], "CrashWindow maxsteps")
+			fs.crashAt = ex.draw("crash-step", "int", 64, 0, uint64(maxSteps))
+			fs.partial = ex.draw("crash-partial", "int", 64, 0, 8)
+			fs.crashOn, fs.step = true, 0
+			crashed := false
+			depth, try := ex.depth, ex.tryDepth
+			func() {
+				defer func() {
+					if r := recover(); r != nil {
+						if _, ok := r.(crashSignal); ok {
+							crashed = true
+							return
+						}
+						panic(r)
+					}
+				}()
+				ex.call(args[2], nil, caller, token.NoPos)
+			}()
+			ex.depth, ex.tryDepth = depth, try
+			fs.crashOn = false
+			if !crashed {
+				// the crash variable must not name a step that never happened
+				ex.assume(ex.ts.Or(ex.ts.Eq(fs.crashAt, ex.ts.Const(64, 0)), ex.ts.Ult(ex.ts.Const(64, uint64(fs.step)), fs.crashAt)))
+				if fs.step > maxSteps {
+					ex.end(endInconclusive, "crash window has %d file-system steps, more than the declared %d", fs.step, maxSteps)
+				}
+			}
+			return ex.ts.Bool(crashed)
+		},
 		"TrackFootprint": func(ex *Exec, fn *ssa.Function, args []Value, caller *Frame) Value {
 			ex.trackFoot = args[1].(*Term).IsTrue()
 			return nil
@@ -1067,6 +1107,10 @@ func (ex *Exec) writeTo(w Value, s Str) Value {
 	}
 	if p, ok := iv.V.(Ptr); ok && p.P != nil {
 		if h, ok := (*p.P).(*Host); ok && h.Kind == "os.File" {
+			if of, ok := h.Data.(*openFile); ok {
+				r := ex.writeModel(of, ex.sliceData(ex.strToBytes(s)))
+				return r.(Tuple)[0]
+			}
 			return ex.strLen(s)
 		}
 	}
